@@ -5,7 +5,7 @@
     endpoint.go.  NOT modelled: gorilla/mux beyond exact first-match on the path (path cleaning, templates with braces),
     the XML of the document (C18), the cryptographic use of the certificate (C04). *)
 From Saml Require Import Xml.SchemaTypes Xml.Schema Gen.Schema Xml.SamlSpec.
-From Saml Require Import Base.Bytes Idp.FactTypes Gen.Facts Gen.Pure Idp.Sso Idp.Router Proofs.SsoProofs Proofs.SsoAccept Proofs.SsoLiveness Idp.BuilderTypes Idp.Builder Idp.BuiltDoc.
+From Saml Require Import Base.Bytes Idp.FactTypes Gen.Facts Gen.Pure Idp.Sso Idp.Router Proofs.SsoProofs Proofs.SsoAccept Proofs.SsoLiveness Idp.BuilderTypes Idp.Builder Idp.BuiltDoc Core.Destination Idp.CheckedLocs.
 From Coq Require Import List. Import ListNotations.
 
 (** the model's routes / advertised locations / entity ID are what the current source says *)
@@ -119,6 +119,45 @@ Theorem C11_metadata_document : forall want enc cache errurl eid issuer cert sso
        at_ d ["IDPSSODescriptor"; "ValidUntil"]%string = Some (DStr valid)).
 Proof. exact metadata_fields. Qed.
 
+(** ADVERTISED = CHECKED.  (a) The value the Destination checks receive is the role descriptor p.GetMetadata returned: its
+    first result in the single sign-on handler, its second in the attribute query handler (from the statements of sso.go /
+    attribute_query.go that define and pass it). *)
+Theorem C11_checked_value_from_source : sso_checked_result = Some 0 /\ attrquery_checked_result = Some 1.
+Proof. exact checked_value_from_source. Qed.
+(** (b) The checks themselves, from the source of identityprovider.go (go2v function mode), for every descriptor and
+    request: no error exactly when the Destination is empty or the Location of a listed endpoint. *)
+Theorem C11_destination_checks_from_source :
+  (forall md rq, goerr_is_nil (verifyRequestDestinationOfAuthRequest md rq)
+     = (is_empty (AuthnRequestType_Destination rq) || bmem (AuthnRequestType_Destination rq) (map EndpointType_Location (IDPSSODescriptorType_SingleSignOnService md)))) /\
+  (forall md rq, goerr_is_nil (verifyRequestDestinationOfAttrQuery md rq)
+     = (is_empty (AttributeQueryType_Destination rq) || bmem (AttributeQueryType_Destination rq) (map EndpointType_Location (AttributeAuthorityDescriptorType_AttributeService md)))).
+Proof. split; [exact authn_destination_bridge|exact attrquery_destination_bridge]. Qed.
+(** (c) What p.GetMetadata lists there, from the builder programs: the SSO endpoint's Absolute(issuer) URL (twice, one per
+    binding) and the attribute endpoint's -- the very values Config.getMetadata publishes (C11_metadata_document) -- so a
+    request passes exactly when it names no Destination or THE advertised location. *)
+Theorem C11_checked_is_advertised : forall want enc cache errurl eid issuer cert sso slo attr valid id2 id3 dest,
+  checked_sat (md_oracles eid issuer cert sso slo attr valid)
+    (DObj "provider.IdentityProvider" [("conf"%string, idp_conf want enc cache errurl); ("TimeFormat"%string, DStr (b "f"))]) [id2; id3]
+    (fun s _ a => exists ls la, s = Some ls /\ a = Some la /\
+       (goerr_is_nil (verifyRequestDestinationOfAuthRequest {| IDPSSODescriptorType_SingleSignOnService := map loc_ep ls |} {| AuthnRequestType_Destination := dest |}) = true
+          <-> dest = [] \/ dest = sso) /\
+       (goerr_is_nil (verifyRequestDestinationOfAttrQuery {| AttributeAuthorityDescriptorType_AttributeService := map loc_ep la |} {| AttributeQueryType_Destination := dest |}) = true
+          <-> dest = [] \/ dest = attr)).
+Proof. exact checked_is_advertised. Qed.
+(** (d) ... and in the handler model: with the list of (c), a request that reaches the login page names no Destination or the
+    advertised single sign-on location -- for every request, service provider and storage answer *)
+Theorem C11_accepted_destination : forall e_form decode lookup verify_redirect verify_post instant_of now create want_signed sso entity_id cert_ok st id,
+  sso_handler e_form decode lookup verify_redirect verify_post instant_of now create want_signed [sso; sso] entity_id cert_ok sso_steps = Done st [RLogin id] ->
+  exists f a, e_form = Some f /\ decode (f_enc f) (f_req f) = Some a /\ (a_destination a = [] \/ a_destination a = sso).
+Proof.
+  intros e_form decode lookup verify_redirect verify_post instant_of now create want_signed sso entity_id cert_ok st id H.
+  assert (Ht : has_tags sso_steps tags6 = true) by (vm_compute; reflexivity).
+  destruct (accept_implies e_form decode lookup verify_redirect verify_post instant_of now create want_signed [sso; sso] entity_id sso_steps Ht
+              (accepted_passes e_form decode lookup verify_redirect verify_post instant_of now create want_signed [sso; sso] entity_id cert_ok sso_steps st id H))
+    as (f & a & i & s & E1 & _ & _ & E2 & _ & _ & _ & _ & _ & _ & Hd & _).
+  exists f, a. split; [exact E1|split; [exact E2|]]. destruct Hd as [Hd|[Hd|[Hd|[]]]]; auto.
+Qed.
+
 Print Assumptions C11_from_source.
 Print Assumptions C11_entity_id.
 Print Assumptions C11_routes.
@@ -128,3 +167,7 @@ Print Assumptions C11_want_signed.
 Print Assumptions C11_schema.
 Print Assumptions C11_unsigned_accepted_otherwise.
 Print Assumptions C11_metadata_document.
+Print Assumptions C11_checked_value_from_source.
+Print Assumptions C11_destination_checks_from_source.
+Print Assumptions C11_checked_is_advertised.
+Print Assumptions C11_accepted_destination.
